@@ -45,6 +45,24 @@ class Prop(Check):
         "Proc.C33_unwrapped_other",
         "Proc.C33_located",
         "Proc.C33_pinned_nchar_false",
+        "Proc.C33_site_text",
+        "Proc.C33_fill_text",
+        "Proc.C33_wrap_text",
+        "Proc.C33_keep_supplied_text",
+        "Proc.C33_start_identified",
+        "Proc.C33_walk_cut",
+        "Proc.C33_walk_first_raise",
+        "Proc.C33_walk_first_raise_script_indep",
+        "Proc.C33_walk_fails_iff",
+        "Proc.C33_walk_no_raise",
+        "Proc.C33_walk_fill_text",
+        "Proc.C33_walk_wrap_text",
+        "Proc.C33_walk_located",
+        "Proc.C33_load_first_model",
+        "Proc.C33_load_fill_text",
+        "Proc.C33_match_first_raise",
+        "Proc.C33_match_fails_iff",
+        "Proc.C33_match_fill_text",
     ]
     DRIVER = "Drivers/Proc.lean"
     QUICK_CASES = 390
@@ -55,9 +73,16 @@ class Prop(Check):
             "with/without textxerror_wrap, from string / named string / files, text starting on any line and column; "
             "non-trivial = the failing call happened and the property's hypothesis holds (TextXError, or wrapped)")
     MODELLED = ("hand-modelled: metamodel.py TextXMetaModel.process enrichment (Proc.enrich), model.py textxerror_wrap "
-                "(Proc.wrap), dispatch keyword arguments for object and match processors (Proc.given); tie X: op "
-                "proc_error; line/column computation (Arpeggio pos_to_linecol) enters as data and is checked by the "
-                "oracle against the text; not exhibited: exceptions raised while a processor error is being handled")
+                "(Proc.wrap), dispatch keyword arguments for object and match processors (Proc.given), model.py "
+                "get_location (Proc.siteOf: Arpeggio pos_to_linecol = LinkLoc.posToLineCol on the text of the model's "
+                "parser, _tx_position_end - _tx_position, the model's file), model.py call_obj_processors with a raising "
+                "processor (Proc.walkE / loadE: the walk stops at the first raising call); tie X: op proc_error — object "
+                "targets: model state at the first processor call of every walked model + registrations + texts + object "
+                "spans + which (rule, object) raises -> the failing call, the calls made before it, and the error "
+                "location; model.py process_match (Proc.matchE: post-order calls, each with the line/col of its own "
+                "node); match targets: text + the match parse tree recorded by the generator + which node's processor "
+                "raises -> the failing call, the calls of that tree made before it, and the error location; "
+                "not exhibited: exceptions raised while a processor error is being handled")
     ASSUMPTIONS = ["exactly one processor call of the load fails", "processors raise fresh exception objects"]
 
     # ------------------------------------------------------------------ cases
@@ -151,6 +176,13 @@ class Prop(Check):
                 line, col = m._tx_parser.pos_to_linecol(what._tx_position)
                 obs["site"] = {"file": self.norm(run, m._tx_filename), "line": line, "col": col,
                                "len": what._tx_position_end - what._tx_position}
+                # what the location is computed from: text of the parser of every walked model, spans of
+                # the objects (as the real objects report them)
+                obs["srcs"] = {str(k): {"file": self.norm(run, mm_._tx_filename),
+                                        "text": getattr(getattr(mm_, "_tx_parser", None), "input", None)}
+                               for k, mm_ in run.models.items()}
+                obs["spans"] = [[u, o._tx_position, o._tx_position_end] for u, o in sorted(run.real.items())
+                                if hasattr(o, "_tx_position") and hasattr(o, "_tx_position_end")]
             else:
                 obs["value"] = str(what)
             return make_exc(spec_)
@@ -171,6 +203,15 @@ class Prop(Check):
                 obs["outcome"] = "other"
                 obs["err"] = {"cls": type(e).__name__, "msg": str(e)[:200]}
             obs["calls"] = sum(1 for e in run.events if e[0] in ("proc", "match"))
+            if tgt["kind"] == "match" and obs["raised"]:
+                obs["mcalls"] = [e[1] for e in run.events if e[0] == "match"]
+            if tgt["kind"] == "obj" and obs["raised"]:
+                # model state at the first processor call of each walked model (in walk order), class table
+                obs["procs"] = [[e[1], e[2]] for e in run.events if e[0] == "proc"]
+                obs["pre"] = {str(k): v for k, v in run.pre.items()}
+                obs["order"] = [int(k) for k in run.pre]
+                obs["classes"] = list(run.classes)
+                obs["kinds"] = [{"common": 0, "abstract": 1, "match": 2}[run.class_of(n)._tx_type] for n in run.classes]
         finally:
             run.cleanup()
         return obs
@@ -221,25 +262,125 @@ class Prop(Check):
             return None
         spec = case["spec"]
         tgt = spec["target"]
+        walk = mtree = None
         if tgt["kind"] == "obj":
-            s = obs["site"]
-            site = {"f": self.fid(s["file"]), "l": s["line"], "c": s["col"], "n": s["len"]}
             kind = "obj"
+            walk = self.walk_req(case, obs)
         else:
-            fn, line, col, length, _root = self.expected_site(case)
-            site = {"f": self.fid(fn), "l": line, "c": col, "n": length}
+            # the match node: text of the model file, the match parse tree the renderer recorded; which node's
+            # processor fails and where that node starts is determined by the model of process_match
             kind = "mtch"
+            mtree = self.mtree_req(case)
         if spec["exc"] in ("value", "key"):
             raised = "other"
         else:
             sup = spec["supplied"]
             raised = {"f": 99 if "filename" in sup else None, "l": 77 if "line" in sup else None,
                       "c": 66 if "col" in sup else None, "n": 55 if "nchar" in sup else None}
-        return {"op": "proc_error", "kind": kind, "wrapped": bool(spec["wrapped"]), "raised": raised, "site": site}
+        req = {"op": "proc_error", "kind": kind, "wrapped": bool(spec["wrapped"]), "raised": raised}
+        if walk is not None:
+            req["walk"] = walk
+        else:
+            req["mtree"] = mtree
+        return req
+
+    def mnum(self, case, name):
+        names = [m["name"] for m in case["schema"]["matches"]] + list(pg.BASES)
+        return names.index(name) if name in names else 900  # 900: a string match (no rule, no processor)
+
+    def mtree_info(self, case):
+        """(file, tree index, trees of the file, target rule, target offset) of the failing match-processor call."""
+        rend = pg.render(case, case["layout"])
+        tgt = case["spec"]["target"]
+        k, rule, start, _txt = [m for m in rend.matches if m[1] == tgt["rule"]][tgt["n"]]
+        trees = [t for fk, t in rend.mtrees if fk == k]
+        for i, t in enumerate(trees):
+            if (rule, start) in self.mflat(t):
+                return rend, k, i, trees, rule, start
+        return rend, k, None, trees, rule, start
+
+    @staticmethod
+    def mflat(t):
+        """calls of a match tree in post-order: (rule, offset)"""
+        out = []
+        for kid in t[2] or []:
+            out.extend(Prop.mflat(kid))
+        out.append((t[0], t[1]))
+        return out
+
+    def mtree_req(self, case):
+        rend, k, i, trees, rule, start = self.mtree_info(case)
+        fn, _line, _col, _length, _root = self.expected_site(case)
+
+        def enc(t):
+            head = [self.mnum(case, t[0]), t[1]]
+            return head if t[2] is None else head + [[enc(x) for x in t[2]]]
+
+        tree = enc(trees[i]) if i is not None else [900, 0]
+        return {"tree": tree, "raise": [self.mnum(case, rule), start],
+                "reg": sorted({self.mnum(case, r) for r in case.get("match_reg", [])}),
+                "f": self.fid(fn), "text": rend.texts[k]}
+
+    def walk_req(self, case, obs):
+        """the walk up to the failing call, replayed by `Proc.loadE`: every walked model as it was at its first
+        processor call, the registrations, which (rule, object) raises, and what `get_location` reads."""
+        tgt = case["spec"]["target"]
+        classes = list(obs["classes"])
+        kinds = list(obs["kinds"])
+        absn = {a["name"] for a in case["schema"]["abstracts"]}
+        for r in case["reg"]:
+            if r not in classes:
+                classes.append(r)
+                kinds.append(1 if r in absn else 0)
+        order = obs["order"]
+        reg = [classes.index(r) for r in case["reg"]]
+        rend = pg.render(case, case["layout"])
+        for k in order:  # (a parser that does not expose its input: the text that was loaded)
+            if obs["srcs"][str(k)]["text"] is None:
+                obs["srcs"][str(k)]["text"] = rend.texts[k]
+        return {
+            "kinds": kinds,
+            "regs": [reg for _k in order],
+            "models": [obs["pre"][str(k)] for k in order],
+            "raise": [classes.index(tgt["rule"]), tgt["uid"]],
+            "srcs": [{"f": self.fid(obs["srcs"][str(k)]["file"]), "text": obs["srcs"][str(k)]["text"]} for k in order],
+            "spans": obs["spans"],
+        }
 
     def compare(self, case, obs, out):
         if "err" in out:
             return f"Lean model rejects the request: {out}"
+        if case["spec"]["target"]["kind"] == "obj":
+            if "nofail" in out:
+                return f"the processor raised on {case['spec']['target']}, in the model walk no call raises"
+            classes = list(obs["classes"]) + [r for r in case["reg"] if r not in obs["classes"]]
+            fail = out.get("fail")
+            if fail is None:
+                return f"model answer without the failing call: {out}"
+            calls = [[classes.index(r), u] for r, u in obs["procs"]]
+            if not calls or fail["call"] != calls[-1]:
+                return f"failing call: implementation {calls[-1:]}, model {fail['call']}"
+            if fail["before"] != calls[:-1]:
+                return f"calls before the failing call: implementation {calls[:-1]}, model {fail['before']}"
+        if case["spec"]["target"]["kind"] == "match":
+            if "nofail" in out:
+                return f"the match processor raised on {case['spec']['target']}, in the model no call of the tree raises"
+            rend, _k, i, trees, rule, start = self.mtree_info(case)
+            fail = out.get("fail")
+            if fail is None or i is None:
+                return f"model answer without the failing call: {out} (tree {i})"
+            if fail["call"] != [self.mnum(case, rule), start]:
+                return f"failing match-processor call: model {fail['call']}, target {[self.mnum(case, rule), start]}"
+            reg = set(case.get("match_reg", []))
+            earlier = sum(1 for t in trees[:i] for (r, _p) in self.mflat(t) if r in reg)
+            seen = obs.get("mcalls", [])
+            want = [r for (r, p) in self.mflat(trees[i]) if r in reg]
+            want = want[:len(fail["before"])]
+            if [self.mnum(case, r) for r in want] != [c[0] for c in fail["before"]]:
+                return f"calls before the failing one: model {fail['before']}, tree {want}"
+            if seen[:-1][earlier:] != want or seen[-1:] != [rule]:
+                return (f"match-processor calls of the failing match: implementation {seen[earlier:]}, "
+                        f"model {want + [rule]}")
         if "other" in out:
             got = obs["outcome"]
             return None if got == "other" else f"implementation outcome {got} {obs.get('err')}, model: the exception passes unchanged"
